@@ -41,8 +41,20 @@ with an oracle that does not look at how pyglove builds the string:
   same oracles hold when an option is left to the default of the method that
   is called.
 
+* special values -- pg.Diff (every shape, flattened diffs), pg.Ref, contextual
+  attributes, partial objects, hyper values and value specs stored under a key
+  of every kind of container: the embedding key, the keys they draw themselves
+  and their leaves are present.
+* control state -- every control shape with every inherited field (id /
+  css_classes / styles / interactive) at every nesting level is unchanged by
+  rendering (once, twice, after each update operation); so are extensions that
+  hand their own fields to the view as option values.
+* child_config -- the configuration of one child does not select the keys /
+  leaves of its siblings.
+
 Drivers: drv_positions, drv_option_pairs, drv_controls, drv_scoping,
-drv_leaf_identity, drv_building_blocks.
+drv_leaf_identity, drv_building_blocks, drv_special_values, drv_control_state,
+drv_child_config.
 """
 import html as _html
 import html.entities as _entities
@@ -347,6 +359,12 @@ def snapshot(v, depth=0):
     return (type(v).__name__, tuple(snapshot(c, depth + 1) for c in v))
   if isinstance(v, (str, int, float, bool, bytes, type(None))):
     return (type(v).__name__, v)
+  if isinstance(v, pg.Html):
+    # markup handed to a control / stored in a tree: content, styles and scripts.
+    try:
+      return ('html', id(v), v.to_str())
+    except Exception:  # pylint: disable=broad-except
+      return ('html', id(v))
   return ('o', id(v), type(v).__name__)
 
 
@@ -1032,10 +1050,12 @@ def pairwise_rows(params, r, extra_random=0):
   return rows
 
 
-def expected_tree(v, kw):
+def expected_tree(v, kw, opaque=None):
   """Keys and leaves the documented option semantics say are rendered.
 
   Returns [(kind, text, case-id suffix)]; kind in 'key' | 'str' | 'leaf'.
+  `opaque(x)`: x renders itself (its key in the container is expected, its
+  inside is judged by the caller).
   """
   out = []
   flags = kw.get('extra_flags') or {}
@@ -1066,6 +1086,8 @@ def expected_tree(v, kw):
     return x, None
 
   def walk(x, root):
+    if opaque is not None and opaque(x):
+      return
     x, items = children(x)
     if items is None:
       if isinstance(x, str):
@@ -2128,6 +2150,515 @@ def drv_building_blocks(tier, seed):
   return rec.result()
 
 
+# ---------------------------------------------------------------------------
+# Driver 7: values that bring their own rendering, at every keyed position.
+#
+# pg.Diff, pg.Ref, contextual attributes, partial objects and the hyper / typing
+# values override (parts of) the tree view.  With the default key style the
+# *child* draws the key it is stored under, so "every key ... of the rendered
+# tree is present" depends on every one of those overrides: each of them is
+# embedded under a key of every kind of container (and rendered as a named
+# root), and the key of the embedding, the keys the value draws itself and its
+# leaves have to be in the text outside tooltips.
+# ---------------------------------------------------------------------------
+
+PRE_SPECIAL = PRE_SWEEP + PRE_CTX + '''class An(pg.Object):
+  x: pg.typing.Any()
+  y: pg.typing.Any() = None
+'''
+
+_DS = 'diff-side'
+# (label, source, [(kind, text or @slot@, case-id suffix)] -- what the value shows of itself;
+#  None: an ordinary tree, judged by expected_tree).
+SPECIALS = [
+    # a difference without children: both sides are shown
+    ('diff.leaf', 'pg.Diff(7919, 104729)', [('token', '7919', _DS), ('token', '104729', _DS)]),
+    ('diff.leaf', 'pg.Diff(@V0@, @V2@)', [('str', '@V0@', _DS), ('str', '@V2@', _DS)]),
+    ('diff.leaf', 'pg.Diff(@V1@, 3.25)', [('str', '@V1@', _DS), ('token', '3.25', _DS)]),
+    ('diff.leaf', 'pg.Diff(In(@V0@, 7919), 65537)',
+     [('str', '@V0@', _DS), ('token', '7919', _DS), ('token', '65537', _DS)]),
+    ('diff.leaf.one-sided', 'pg.Diff(pg.Diff.MISSING, 7919)', [('token', '7919', _DS)]),
+    ('diff.leaf.one-sided', 'pg.Diff(@V0@, pg.Diff.MISSING)', [('str', '@V0@', _DS)]),
+    # no difference, the common value is shown
+    ('diff.no-diff.simple', 'pg.Diff(7919, 7919)', [('token', '7919', _DS)]),
+    ('diff.no-diff.simple', 'pg.Diff(@V0@, @V0@)', [('str', '@V0@', _DS)]),
+    ('diff.no-diff.long-str', 'pg.Diff(@V1@, @V1@)', [('str', '@V1@', _DS)]),
+    ('diff.no-diff.object', "pg.diff(In(@V0@, 7919), In(@V0@, 7919), mode='both')",
+     [('str', '@V0@', _DS), ('token', '7919', _DS), ('key', 's', 'diff-key'), ('key', 'n', 'diff-key')]),
+    ('diff.empty', 'pg.Diff()', []),
+    # differences with children: the keys are drawn by the Diff
+    ('diff.object', 'pg.diff(In(@V0@, 7919), In(@V2@, 7919))',
+     [('str', '@V0@', _DS), ('str', '@V2@', _DS), ('key', 's', 'diff-key')]),
+    ('diff.object', "pg.diff(In(@V0@, 7919), In(@V2@, 104729), mode='both')",
+     [('str', '@V0@', _DS), ('str', '@V2@', _DS), ('token', '7919', _DS), ('token', '104729', _DS),
+      ('key', 's', 'diff-key'), ('key', 'n', 'diff-key')]),
+    ('diff.object', "pg.diff(pg.Dict({@K1@: 7919, 'ks7': @V0@}), pg.Dict({@K1@: 104729, 'ks7': @V0@}), mode='both')",
+     [('str', '@V0@', _DS), ('token', '7919', _DS), ('token', '104729', _DS),
+      ('key', '@K1@', 'diff-key'), ('key', 'ks7', 'diff-key')]),
+    ('diff.class', 'pg.diff(In(@V0@, 7919), pg.Dict(s=@V0@, n=104729))',
+     [('token', '7919', _DS), ('token', '104729', _DS), ('key', 'n', 'diff-key')]),
+    ('diff.list', "pg.diff(pg.List([7919, @V0@]), pg.List([7919, @V2@, 65537]), mode='both')",
+     [('str', '@V0@', _DS), ('str', '@V2@', _DS), ('token', '7919', _DS), ('token', '65537', _DS)]),
+    ('diff.nested',
+     'pg.diff(pg.Dict(ka7=pg.Dict(kb7=7919, kc7=[@V0@])), pg.Dict(ka7=pg.Dict(kb7=104729, kc7=[@V2@])))',
+     [('str', '@V0@', _DS), ('str', '@V2@', _DS), ('token', '7919', _DS), ('token', '104729', _DS),
+      ('key', 'ka7', 'diff-key'), ('key', 'kb7', 'diff-key'), ('key', 'kc7', 'diff-key')]),
+    # the documented flat form: a dict of key path -> Diff
+    ('diff.flattened', 'pg.Dict(pg.diff(pg.Dict(ka7=7919, kb7=pg.Dict(kc7=@V0@), kd7=3.25), '
+                       'pg.Dict(ka7=104729, kb7=pg.Dict(kc7=@V2@), kd7=3.25), flatten=True))',
+     [('str', '@V0@', _DS), ('str', '@V2@', _DS), ('token', '7919', _DS), ('token', '104729', _DS),
+      ('key', 'ka7', 'flat-key'), ('key', 'kb7.kc7', 'flat-key')]),
+    # references
+    ('ref', 'pg.Ref(In(@V0@, 7919))', None),
+    ('ref', 'pg.Ref(pg.Dict({@K1@: [@V0@, 7919]}))', None),
+    ('ref', "pg.Ref({'kr7': (@V0@, 7919)})", None),
+    # contextual attributes
+    ('contextual', 'Ch()', []),
+    ('contextual', 'Pa(@V0@, Ch())', [('str', '@V0@', 'str-leaf'), ('key', 't', 'key@summary-style'),
+                                      ('key', 'c', 'key@summary-style')]),
+    # partial objects, hyper values, value specifications
+    ('partial', 'In.partial(n=7919)', [('token', '7919', 'simple-leaf'), ('key', 's', 'key@summary-style'),
+                                      ('key', 'n', 'key@summary-style')]),
+    ('hyper', 'pg.oneof([7919, @V0@])', []),
+    ('hyper', 'pg.floatv(0.25, 3.25)', []),
+    ('hyper', 'pg.DNA([1, (2, [3])])', []),
+    ('typing', 'pg.typing.Int(min_value=7919)', []),
+    ('typing', "pg.typing.Dict([('kt7', pg.typing.Str(), @V0@)])", []),
+]
+
+# embedding -> (template, extra options); @K0@ is the key the value is stored under.
+SPECIAL_EMBED = {
+    'named-root': ('{E}', [('name', '@K0@')]),
+    'dict-value': ("{{@K0@: {E}, 'kq7': 'after'}}", []),
+    'pg.Dict-value': ("pg.Dict({{'kp7': 'before', @K0@: {E}}})", []),
+    'object-field': ("An({E}, 'after')", []),
+    'strkey-object-field': ('Ob(**{{@K0@: {E}}})', []),
+    'list-item': ("[{E}, 'after']", []),
+    'nested': ("{{'ka9': [{{@K0@: {E}}}, 65539]}}", []),
+    'ref-target': ('pg.Dict(kr9=pg.Ref(pg.Dict({{@K0@: {E}}})))', []),
+    'sibling-specials': ('pg.Dict({{@K0@: {E}, @K2@: {E}}})', []),
+}
+SPECIAL_OPTSETS = [
+    ('default', []),
+    ('no-tooltips', NOTIP),
+    ('label-keys', [('key_style', "'label'")]),
+    ('key-style-fn', [('key_style', "lambda k, v, p: 'label' if isinstance(v, (int, str)) else 'summary'")]),
+    ('expand-all', [('collapse_level', 'None')]),
+    ('collapse-all', [('collapse_level', '0')] + NOTIP),
+    ('summary-always', [('enable_summary', 'True')]),
+    ('tiny-summary-len', [('max_summary_len_for_str', '0'), ('enable_key_tooltip', 'False')]),
+    ('content-only', [('content_only', 'True')] + NOTIP),
+    ('highlight+colors', [('highlight', 'lambda k, v, p: True'), ('key_color', "('red', None)"),
+                          ('summary_color', "(None, '#eee')")]),
+]
+_SPECIAL_ENTRIES = ('pg.to_html_str', 'pg.to_html', 'view_options', 'repr_html', 'view.render')
+
+
+def _is_special(x):
+  """x is one of the values of SPECIALS that is not an ordinary tree."""
+  from pyglove.core import geno, hyper  # pylint: disable=g-import-not-at-top
+  return (isinstance(x, (pg.Diff, pg.ContextualObject, hyper.HyperValue, geno.DNA, pg.typing.ValueSpec))
+          or (isinstance(x, pg.Object) and type(x).__name__ == 'In' and x.sym_partial))
+
+
+def drv_special_values(tier, seed):
+  Plant._counter[0] = 500000
+  quick = tier == 'quick'
+  rec = Recorder(
+      PROP, 'values with their own rendering (pg.Diff in every shape, flattened diffs, pg.Ref, contextual '
+            'attributes, partial objects, hyper values, value specs) stored under a key of every kind of '
+            'container: the key of the embedding, the keys the value draws and its leaves are shown',
+      scope='%d special values x %d embeddings (%s) x %d option sets x 3 payload loads x %d entry points '
+            '(quick: default options + 1 rotating option set per value x embedding; load and entry rotate)'
+            % (len(SPECIALS), len(SPECIAL_EMBED), ', '.join(SPECIAL_EMBED), len(SPECIAL_OPTSETS),
+               len(_SPECIAL_ENTRIES)))
+  loads = ('benign', 'hot-values', 'hot-keys')
+  n = rng(seed, 'c20-special').randrange(120)
+  for label, esrc, own in SPECIALS:
+    for embed, (tmpl, extra) in SPECIAL_EMBED.items():
+      n += 1
+      if quick and label in ('hyper', 'typing') and n % 2:
+        continue    # ordinary objects with a long repr: every other embedding
+      if quick:
+        k = len(SPECIAL_OPTSETS) - 1
+        osets = [SPECIAL_OPTSETS[0], SPECIAL_OPTSETS[1 + n % k]]
+      else:
+        osets = SPECIAL_OPTSETS
+      for oi, (oname, oset) in enumerate(osets):
+        for li, load in enumerate(loads):
+          if quick and li != (n + oi) % 3:
+            continue
+          entry = 'pg.to_html_str'
+          if oname != 'content-only' and (n + oi + li) % 4 == 0:
+            entry = _SPECIAL_ENTRIES[1 + ((n + oi) // 4) % (len(_SPECIAL_ENTRIES) - 1)]
+          opts = _merge_opts(oset, extra)
+          kopt = dict(opts).get('key_style', '')
+          fill = _Fill(n + oi, load, key_pos='tree.key@%s-style' % ('label' if kopt == "'label'" else 'summary'))
+          src = tmpl.format(E=esrc)
+          used = fill.used(src, *[x for _, x in opts])
+
+          def present(v, kw, own=own, fill=fill, embed=embed):
+            out = list(expected_tree(v, kw, opaque=None if own is None else _is_special))
+            es = kw.get('enable_summary')
+            if embed == 'named-root' and es is not False:
+              out.append(('key', kw['name'], 'key@summary-style'))
+            for kind, text, sfx in own or []:
+              if text.startswith('@'):
+                text = eval(fill.lit(text.strip('@'), False))  # pylint: disable=eval-used
+              if sfx.startswith('key@') and es is False:
+                continue
+              if sfx == 'flat-key':
+                ks = kw.get('key_style', 'summary')
+                st = ks(None, None, None) if callable(ks) else ks
+                if st == 'summary' and es is False:
+                  continue
+                sfx = 'key@%s-style' % st
+              out.append((kind, text, sfx))
+            seen, uniq = set(), []
+            for e in out:
+              if e[:2] not in seen:
+                seen.add(e[:2])
+                uniq.append(e)
+            return uniq
+
+          Case(rec, 'tree.special[%s]' % label, (esrc, embed, oname, load, entry), PRE_SPECIAL,
+               lambda twin, fill=fill, src=src: fill.subst(src, twin), opts, used,
+               entry=entry, present=present, kw_present=True, fmt=fill.subst,
+               pgroup='tree.special[%s]' % label,
+               twin=(load != 'benign' and (not quick or n % 2 == 0))).run()
+  return rec.result()
+
+
+# ---------------------------------------------------------------------------
+# Driver 8: rendering a control never modifies it.
+#
+# Controls are symbolic values with inherited fields (id, css_classes, styles,
+# interactive) next to their own, and nest (labels in groups and tabs, tooltips
+# in labels, sub-progresses in a progress bar).  Rendering computes derived
+# attributes (widths, class lists, element ids) from those fields: "rendering
+# does not modify the value" is checked for every control shape with every
+# inherited field given at every level of the nesting, through every entry
+# point, standing alone and embedded in containers, rendered once, twice, and
+# again after each update operation of the control.
+# ---------------------------------------------------------------------------
+
+# (shape, source with @B@ = the inherited-field arguments of ONE control of the shape)
+CONTROL_SHAPES = [
+    ('label', "C.Label('t7'@B@)"),
+    ('label', "C.Label('t7', 'tip7', 'http://x/y'@B@)"),
+    ('label', "C.Label(pg.Html('<b>t7</b>'), target='_blank'@B@)"),
+    ('label.tooltip', "C.Label('t7', C.Tooltip('tip7'@B@))"),
+    ('badge', "C.Badge('t7'@B@)"),
+    ('label-group', "C.LabelGroup(['a7', C.Badge('b7')], name='n7'@B@)"),
+    ('label-group.label', "C.LabelGroup([C.Label('a7'@B@), 'b7'], name='n7')"),
+    ('label-group.name', "C.LabelGroup(['a7'], name=C.Label('n7'@B@))"),
+    ('tooltip', "C.Tooltip('tip7', for_element='.x'@B@)"),
+    ('tab-control', "C.TabControl([C.Tab('a7', pg.Dict(k=1)), C.Tab('b7', C.Label('z7'))], 1@B@)"),
+    ('tab-control', "C.TabControl([C.Tab('a7', pg.Html('<i>x</i>'))], tab_position='left'@B@)"),
+    ('tab-control.tab-label', "C.TabControl([C.Tab(C.Label('a7'@B@), pg.Dict(k=1))])"),
+    ('tab-control.tab-content', "C.TabControl([C.Tab('a7', C.Label('z7'@B@))])"),
+    ('progress-bar', "C.ProgressBar([C.SubProgress('done7', 2), C.SubProgress('failed7', 1)], total=8@B@)"),
+    ('progress-bar.sub-progress', "C.ProgressBar([C.SubProgress('done7', 2@B@), C.SubProgress('failed7')], total=8)"),
+    ('progress-bar.sub-progress', "C.ProgressBar([C.SubProgress('skipped7'), C.SubProgress('done7', 8@B@)], total=8)"),
+    ('progress-bar.sub-progress[total=None]', "C.ProgressBar([C.SubProgress('done7', 2@B@)])"),
+]
+# inherited fields: (label, source; @P@ = payload slot (shown as attribute value))
+CONTROL_FIELDS = [
+    ('none', ''),
+    ('id', ", id='cid7'"),
+    ('id', ', id=@P@'),
+    ('css_classes', ", css_classes=['cc7', 'cd7']"),
+    ('css_classes', ", css_classes=['cc7', @P@]"),
+    ('styles', ", styles={'color': 'red'}"),
+    ('styles', ", styles={'background-color': 'green', 'width': '3px', 'margin-left': '1px'}"),
+    ('styles', ", styles={'color': @P@}"),
+    ('styles', ", styles=pg.Dict(color='red')"),
+    ('interactive', ', interactive=True'),
+    ('all', ", id='cid7', css_classes=['cc7'], styles={'color': 'red', 'height': '2px'}, interactive=True"),
+]
+CONTROL_EMBED = [
+    ('alone', '{E}', 'v.to_html_str'),
+    ('alone', '{E}', 'pg.to_html_str'),
+    ('alone', '{E}', 'pg.to_html'),
+    ('alone', '{E}', 'v.to_html'),
+    ('alone', '{E}', 'repr_html'),
+    ('alone', '{E}', 'view_options'),
+    ('pg.Dict-value', 'pg.Dict(kq7={E})', 'pg.to_html_str'),
+    ('list-item', "[{E}, 'after']", 'pg.to_html_str'),
+    ('nested', "pg.Dict(ko7=pg.List([{E}]))", 'v.to_html_str'),
+    ('tab-content', "C.TabControl([C.Tab('outer7', {E})])", 'v.to_html_str'),
+    ('ref-target', 'pg.Ref({E})', 'pg.to_html_str'),
+]
+# operations of the controls; the value after the operation is the value to keep.
+CONTROL_UPDATES = [
+    ('label.update', "C.Label('t7', 'tip7', 'http://a', interactive=True@B@)",
+     ["v.update(text='new7')", "v.update(tooltip='ntip7')", "v.update(link='http://b')",
+      "v.update(styles={'color': 'blue'})", "v.update(add_class=['ca7'], remove_class=['cc7'])",
+      "v.update('new8', 'ntip8', styles={'width': '5px'})"]),
+    ('badge.update', "C.Badge('t7', interactive=True@B@)", ["v.update(text='new7')", "v.update(styles={'color': 'blue'})"]),
+    ('tooltip.update', "C.Tooltip('tip7', for_element='.x', interactive=True@B@)",
+     ["v.update('ntip7')", "v.update(pg.Html('<b>ntip7</b>'))"]),
+    ('tab-control.update', "C.TabControl([C.Tab('a7', pg.Dict(k=1), name='na7'), C.Tab('b7', C.Label('z7'), name='nb7')]@B@)",
+     ["v.select(1)", "v.select('nb7')", "v.append(C.Tab('c7', pg.Dict(q=2)))",
+      "v.insert(0, C.Tab('c7', C.Label('y7')))", "v.extend([C.Tab('c7', pg.Dict(q=2)), C.Tab('d7', pg.Dict(q=3))])"]),
+    ('progress-bar.update', "C.ProgressBar([C.SubProgress('done7', 2@B@), C.SubProgress('failed7')], total=8)",
+     ["v['done7'].increment()", "v['failed7'].increment(3)", "v['done7'].update(5)"]),
+    ('progress-bar.update', "C.ProgressBar([C.SubProgress('done7'@B@), C.SubProgress('failed7', 1)])",
+     ["v.update(total=4)", "v.update(total=4); v['done7'].increment()"]),
+]
+
+
+# The same pattern in the tree view: an extension that hands its OWN symbolic
+# fields (lists / dicts) to the view as option values, from its configuration
+# and from a hook.  The view merges and extends option values; the fields stay
+# as they are.
+PRE_OWN = '''class Ow(pg.Object):
+  classes: list
+  cfg: dict
+  paths: list
+  flags: dict
+  keys: list
+  s: str
+  l: list
+  def _html_tree_view_config(self):
+    return dict(css_classes=self.classes, child_config=self.cfg, uncollapse=self.paths,
+                extra_flags=self.flags, exclude_keys=self.keys, collapse_level=0)
+class Oh(Ow, pg.views.HtmlTreeView.Extension):
+  def _html_tree_view_config(self):
+    return {}
+  def _html_tree_view_content(self, *, view, name=None, parent=None, root_path=None, **kwargs):
+    kwargs.update(css_classes=self.classes, child_config=self.cfg, uncollapse=self.paths,
+                  extra_flags=self.flags, exclude_keys=self.keys)
+    return view.content(self, name=name, parent=parent, root_path=root_path, **kwargs)
+'''
+_OWN_ARGS = ("(['c1'], {'l': dict(css_classes=['c2'], collapse_level=None, uncollapse=['x'], extra_flags=dict(q=1))}, "
+             "['l', 'l[1]'], dict(hide_frozen=False), ['keys'], @P@, [1, {'x': [@P@]}])")
+OWN_EMBED = [('root', '{E}'), ('pg.Dict-value', 'pg.Dict(a={E})'), ('list-item', '[{E}, {E}]'),
+             ('ref-target', 'pg.Dict(r=pg.Ref({E}))')]
+OWN_OPTIONS = [
+    ('default', []), ('css_classes', [('css_classes', "['top']")]), ('uncollapse', [('uncollapse', "['a.l', 'l']")]),
+    ('extra_flags', [('extra_flags', 'dict(z=1)')]), ('collapse_level', [('collapse_level', 'None')]),
+    ('exclude_keys', [('exclude_keys', "['flags']")]),
+    ('child_config', [('child_config', "dict(a=dict(css_classes=['cc'], child_config=dict(l=dict(css_classes=['dd']))), "
+                                       "l=dict(uncollapse=['[1]']))")]),
+]
+
+
+def drv_control_state(tier, seed):
+  Plant._counter[0] = 600000
+  quick = tier == 'quick'
+  rec = Recorder(
+      PROP, 'rendering never modifies a control: every control shape x inherited field (id / css_classes / '
+            'styles / interactive, plain and with payloads) at every nesting level x entry point / embedding; '
+            'render twice; render again after every update operation',
+      scope='%d control shapes x %d inherited-field settings x %d entry points/embeddings (quick: alone via '
+            'rotating entry point/embedding and payload per shape x setting; updates under 3 settings); '
+            're-rendering of every shape x setting; %d update operations x %d settings; tree-view extensions '
+            'handing their own list/dict fields to the view (config / hook) x 4 embeddings x 7 option sets'
+            % (len(CONTROL_SHAPES), len(CONTROL_FIELDS), len(CONTROL_EMBED),
+               sum(len(u[2]) for u in CONTROL_UPDATES), len(CONTROL_FIELDS)))
+  n = rng(seed, 'c20-control-state').randrange(60)
+  hot = [x for x in KEY_SAFE]
+  for shape, stmpl in CONTROL_SHAPES:
+    for fname, fsrc in CONTROL_FIELDS:
+      n += 1
+      embeds = CONTROL_EMBED if not quick else [CONTROL_EMBED[n % len(CONTROL_EMBED)]]
+      for ei, (ename, etmpl, entry) in enumerate(embeds):
+        pnames = [None]
+        if '@P@' in fsrc:
+          pnames = hot if not quick else [hot[(n * 3 + ei) % len(hot)]]
+        for pname in pnames:
+          plants = []
+          if pname is not None:
+            # a control below a pg.Ref is shown as a tree: the field is a str leaf there.
+            plants = [Plant('controls.%s-field' % fname, pname, 'str' if ename == 'ref-target' else 'attr')]
+
+          def vsrc(twin, etmpl=etmpl, stmpl=stmpl, fsrc=fsrc, plants=plants):
+            b = fsrc.replace('@P@', plants[0].src(twin)) if plants else fsrc
+            return etmpl.format(E=stmpl.replace('@B@', b))
+
+          Case(rec, 'controls.state[%s]' % shape, (stmpl, fname, ename, entry, pname), PRE_CTL, vsrc,
+               [] if entry == 'repr_html' else [('content_only', 'True' if (n + ei) % 2 else 'False')],
+               plants, entry=entry, twin=bool(plants) and (not quick or n % 2 == 0)).run()
+
+      # the same value rendered twice: the same document, the same value.
+      if quick and '@P@' in fsrc:
+        continue
+      src = stmpl.replace('@B@', fsrc.replace('@P@', "'plain7'"))
+      code = ('import pyglove as pg\n' + PRE_CTL + 'v = %s\nb = pg.format(v, compact=True)\ns1 = v.to_html_str()\n'
+              's2 = pg.to_html_str(v)\ns3 = v.to_html_str()\n' % src)
+      ns = {'__name__': '__main__', 'snap': snapshot}
+      try:
+        exec(code.replace('b = pg.format(v, compact=True)\n', 'b = pg.format(v, compact=True)\nsn = snap(v)\n'), ns)  # pylint: disable=exec-used
+      except Exception as e:  # pylint: disable=broad-except
+        _record(rec, 'controls.state[%s]/raises:%s' % (shape, type(e).__name__), (stmpl, fname), False,
+                repr(e), code)
+        continue
+      v = ns['v']
+      _record(rec, 'controls.state[%s]/value-unmodified' % shape, (stmpl, fname, 're-render'),
+              snapshot(v) == ns['sn'] and pg.format(v, compact=True) == ns['b'],
+              'the control differs after three renderings: %s -> %s' % (ns['b'][:200], pg.format(v, compact=True)[:200]),
+              code + 'assert pg.format(v, compact=True) == b, (b, pg.format(v, compact=True))')
+      _record(rec, 'controls.state[%s]/re-render-same-document' % shape, (stmpl, fname),
+              ns['s1'] == ns['s2'] == ns['s3'],
+              'consecutive renderings of the same unchanged control give different documents',
+              code + 'assert s1 == s2 == s3')
+
+  # tree-view extensions that hand their own fields to the view.
+  for cls in ('Ow', 'Oh'):
+    for ename, etmpl in OWN_EMBED:
+      for oname, oset in OWN_OPTIONS:
+        n += 1
+        p = Plant('tree.str-leaf', PAYLOAD_NAMES[n % len(PAYLOAD_NAMES)], 'str')
+        Case(rec, 'tree.own-fields-as-options[%s]' % ('config' if cls == 'Ow' else 'hook'), (cls, ename, oname),
+             PRE_OWN, lambda twin, p=p, etmpl=etmpl, cls=cls: etmpl.format(E=cls + _OWN_ARGS.replace('@P@', p.src(twin))),
+             oset, [p], twin=not quick).run()
+
+  # render, operate, render again: the second rendering leaves the operated value alone
+  # and is a well-formed document.
+  for cid, stmpl, ops in CONTROL_UPDATES:
+    for fname, fsrc in CONTROL_FIELDS:
+      if '@P@' in fsrc or (fname == 'interactive' and 'interactive=True' in stmpl):
+        continue
+      if quick and (fname, fsrc) not in (CONTROL_FIELDS[0], CONTROL_FIELDS[5], CONTROL_FIELDS[-1]):
+        continue
+      if fname == 'all' and 'interactive=True' in stmpl:
+        fsrc = fsrc.replace(', interactive=True', '')
+      for op in ops:
+        code = ('import pyglove as pg\n' + PRE_CTL + 'v = %s\ns0 = v.to_html_str()\n%s\nb = pg.format(v, compact=True)\n'
+                's = v.to_html_str()\n' % (stmpl.replace('@B@', fsrc), op))
+        ns = {'__name__': '__main__', 'snap': snapshot}
+        try:
+          exec(code.replace('\ns = v.to_html_str()', '\nsn = snap(v)\ns = v.to_html_str()'), ns)  # pylint: disable=exec-used
+        except Exception as e:  # pylint: disable=broad-except
+          _record(rec, 'controls.state[%s]/raises:%s' % (cid, type(e).__name__), (stmpl, fname, op), False,
+                  repr(e), code)
+          continue
+        v = ns['v']
+        _record(rec, 'controls.state[%s]/value-unmodified' % cid, (stmpl, fname, op),
+                snapshot(v) == ns['sn'] and pg.format(v, compact=True) == ns['b'],
+                'rendering after %s modified the control: %s -> %s' % (op, ns['b'][:200], pg.format(v, compact=True)[:200]),
+                code + 'assert pg.format(v, compact=True) == b, (b, pg.format(v, compact=True))')
+        doc = parse_html(ns['s'])
+        _record(rec, 'controls.state[%s]/wellformed' % cid, (stmpl, fname, op), not doc.errors,
+                '; '.join('%s: %s' % e for e in doc.errors[:3]), code + _W_FALLBACK)
+  return rec.result()
+
+
+# ---------------------------------------------------------------------------
+# Driver 9: `child_config` is the configuration of the named child only.
+#
+# "child_config: the configs for the immediate child nodes ... to override the
+# default configs for the child node": an option set for one child decides
+# which keys / leaves of THAT child are rendered; its siblings -- before and
+# after it -- are rendered under the options of the call.  Every option that
+# selects keys or leaves (hide_default_values / hide_frozen in extra_flags,
+# include_keys, exclude_keys) and a sample of the others is configured for
+# the first / a middle / the last child of every kind of container, with and
+# without the same kind of option given at the top level, and every key and
+# leaf the documented meaning selects has to be present.
+# ---------------------------------------------------------------------------
+
+PRE_CC = '''class Ia(pg.Object):
+  ks7: str
+  kn7: int = 7919
+  kf7: pg.typing.Str().freeze('fza')
+class Ib(pg.Object):
+  ks7: str
+  kn7: int = 104729
+  kf7: pg.typing.Str().freeze('fzb')
+class Ic(pg.Object):
+  ks7: str
+  kn7: int = 65537
+  kf7: pg.typing.Str().freeze('fzc')
+class Oc(pg.Object):
+  a: Ia
+  b: Ib
+  c: Ic
+'''
+_CC_CHILDREN = "Ia(@V0@), Ib(@V2@), Ic(@V3@)"
+CC_ROOTS = {
+    'pg.Dict': ("pg.Dict(a=Ia(@V0@), b=Ib(@V2@), c=Ic(@V3@))", ['a', 'b', 'c']),
+    'dict': ("{'a': Ia(@V0@), 'b': Ib(@V2@), 'c': Ic(@V3@)}", ['a', 'b', 'c']),
+    'list': ("[Ia(@V0@), Ib(@V2@), Ic(@V3@)]", [0, 1, 2]),
+    'pg.Object': ("Oc(Ia(@V0@), Ib(@V2@), Ic(@V3@))", ['a', 'b', 'c']),
+    'nested': ("{'top': pg.Dict(a=Ia(@V0@), b=Ib(@V2@), c=Ic(@V3@))}", ['a', 'b', 'c']),
+}
+# option of the child -> source of its config
+CC_CHILD_OPTIONS = [
+    ('extra_flags.hide_default_values', "dict(extra_flags=dict(hide_default_values=True))"),
+    ('extra_flags.hide_frozen', "dict(extra_flags=dict(hide_frozen=False))"),
+    ('extra_flags.user-flag', "dict(extra_flags=dict(note=@X@))"),
+    ('exclude_keys', "dict(exclude_keys=['kn7'])"),
+    ('include_keys', "dict(include_keys=['ks7'])"),
+    ('key_style', "dict(key_style='label')"),
+    ('collapse_level', "dict(collapse_level=0)"),
+    ('css_classes', "dict(css_classes=['cc7'])"),
+    ('tooltips', "dict(enable_summary_tooltip=False, enable_key_tooltip=False)"),
+    ('uncollapse', "dict(uncollapse=['ks7'])"),
+    ('child_config', "dict(child_config=dict(ks7=dict(css_classes=['cd7'])))"),
+]
+CC_TOP_OPTIONS = [
+    ('-', []),
+    ('extra_flags={}', [('extra_flags', '{}')]),
+    ('extra_flags=user-flag', [('extra_flags', 'dict(zflag=1)')]),
+    ('exclude_keys=fn', [('exclude_keys', 'lambda k, v, p: False')]),
+    ('expand-all+css', [('collapse_level', 'None'), ('css_classes', "['top7']")]),
+]
+
+
+def drv_child_config(tier, seed):
+  Plant._counter[0] = 700000
+  quick = tier == 'quick'
+  rec = Recorder(
+      PROP, 'child_config configures the named child only: keys and leaves of its siblings are rendered '
+            'under the options of the call',
+      scope='%d containers x configured child first/middle/last x %d child options x %d top-level option '
+            'sets x 2 payload loads (quick: top-level sets and loads rotate)'
+            % (len(CC_ROOTS), len(CC_CHILD_OPTIONS), len(CC_TOP_OPTIONS)))
+  n = rng(seed, 'c20-child-config').randrange(30)
+  for root_label, (rsrc, keys) in CC_ROOTS.items():
+    for ti, target in enumerate(keys):
+      for cname, csrc in CC_CHILD_OPTIONS:
+        n += 1
+        tops = CC_TOP_OPTIONS if not quick else [CC_TOP_OPTIONS[0], CC_TOP_OPTIONS[1 + n % (len(CC_TOP_OPTIONS) - 1)]]
+        for oi, (oname, oset) in enumerate(tops):
+          for li, load in enumerate(('benign', 'hot-values')):
+            if quick and li != (n + oi) % 2:
+              continue
+            fill = _Fill(n + oi, load)
+            cc = 'dict([(%r, %s)])' % (target, csrc)
+            if root_label == 'nested':
+              cc = 'dict(top=dict(child_config=%s))' % cc
+            opts = oset + [('child_config', cc)] + NOTIP
+
+            def present(v, kw, target=target, csrc=csrc, fill=fill, root_label=root_label):
+              cfg = eval(fill.subst(csrc, False), _ns(PRE_CC))  # pylint: disable=eval-used
+              top = {k: x for k, x in kw.items() if k != 'child_config'}
+              box = v['top'] if root_label == 'nested' else v
+              items = (list(enumerate(box)) if isinstance(box, list) else
+                       list(box.sym_items()) if isinstance(box, pg.Symbolic) else list(box.items()))
+              out = [('key', 'top', 'key@summary-style')] if root_label == 'nested' else []
+              for k, c in items:
+                out.append(('token', str(k), 'index-key') if isinstance(k, int) else ('key', k, 'key@summary-style'))
+                mine = dict(top)
+                if k == target:
+                  for ck, cx in cfg.items():
+                    mine[ck] = dict(mine.get(ck) or {}, **cx) if ck == 'extra_flags' else cx
+                tag = 'configured-child' if k == target else ('sibling-after' if items.index((k, c)) > [i for i, (kk, _) in enumerate(items) if kk == target][0] else 'sibling-before')
+                out += [(kind, text, '%s.%s' % (tag, sfx)) for kind, text, sfx in expected_tree(c, mine)]
+              return out
+
+            # children of a sequence are named by their position (an int key of the
+            # configuration): one input class of its own.
+            grp = 'tree.child-config.by-position' if root_label == 'list' else 'tree.child-config[%s]' % cname
+            Case(rec, grp, (root_label, cname, ti, oname, load), PRE_CC,
+                 lambda twin, fill=fill, rsrc=rsrc: fill.subst(rsrc, twin), opts,
+                 fill.used(rsrc, csrc), present=present, kw_present=True, fmt=fill.subst,
+                 pgroup=grp, twin=(load != 'benign' and not quick)).run()
+  return rec.result()
+
+
 _W_TOKENS = ("t = html.unescape(re.sub(r'<[^>]*>', '\\x1f', "
              "re.sub(r'<span class=\"tooltip[^\"]*\"[^>]*>[^<]*</span>', '', s)))\n"
              "assert any(re.search(r'(?<![\\w.+\\-])' + re.escape(x) + r'(?![\\w.])', t) for x in %r), "
@@ -2150,7 +2681,7 @@ assert got == want
 '''
 
 DRIVERS = [drv_positions, drv_option_pairs, drv_controls, drv_scoping, drv_leaf_identity,
-           drv_building_blocks]
+           drv_building_blocks, drv_special_values, drv_control_state, drv_child_config]
 
 
 def replay(rec):
